@@ -3,43 +3,76 @@ _LIB = ["src/rfc1055.c", "src/endpoints/core.c", "src/endpoints/buffer.c",
 
 CHECK = {
     "level": "model_checking",
-    "technique": "bounded-exhaustive enumeration of closed encoder/decoder executions over scripted octet drivers (E-SPACE) "
-                 "plus explicit-state search to fixpoint over the decoder context (E-STATE), each run on the real "
+    "technique": "bounded-exhaustive enumeration of closed encoder/decoder executions over scripted octet and chunk drivers (E-SPACE: inputs x "
+                 "driver answer scripts x continued use of the same context) "
+                 "plus explicit-state search to fixpoint over the decoder context (E-STATE, operations = streams with and without one driver failure), each run on the real "
                  "rfc1055_encode/rfc1055_decode and judged by a lexical reference (independent RFC 1055 stuffing / frame recogniser)",
-    "rule": "cases = every payload / raw stream over the octet classes {41,c0,db,dc,dd} up to the bound, every ordered payload pair, "
-            "every garbage prefix x sequence of well-formed frames, every driver-call position x {-EIO,-EPIPE}, both modes; "
+    "rule": "cases = every payload / raw stream over the octet classes {41,c0,db,dc,dd} up to the bound, every ordered payload pair "
+            "(fresh contexts, and one context object - from rfc1055_context_init or from the static initialiser - used for both encodes and the decode), "
+            "every garbage prefix x sequence of well-formed frames, both modes; "
+            "driver histories: every driver-call position x {-EIO,-EPIPE,-EAGAIN,-EINTR} for encode (source and sink) and decode (sink; source -EIO/-EPIPE), the decoder being used on "
+            "with the same context and source after the failure (streams: all class strings up to the bound, all pairs of frames with payload <= 2, all triples with payload <= 1); "
+            "source interruptions of the decoder: -EAGAIN/-EINTR at every source-call position, and every two positions (also back to back, all four code combinations), "
+            "x {rfc1055_context_init + octet drivers, static initialiser + chunk drivers}; "
+            "encoder sink answer scripts: every placement of one and of two deviations from 'takes everything' over the first 2n+3 sink calls, deviations "
+            "{short write (1 of several), zero-length return to a write of several octets, -EAGAIN, -EINTR, -EIO}, octet and chunk sinks, plus a chunk sink that accepts up to the next "
+            "multiple of b octets for b = 1..8; "
+            "RFC1055_WORST_CASE/_CLASSIC/_WITHSOF for every n <= 1100 and for n = 2^k-2..2^k+2, k = 1..63, as size_t and uint64_t, plain and as an expression argument, as long as 2n+2 is a size_t; "
             "the quantifier's 'random full-alphabet payloads up to 1 KiB' is replaced by exhaustive structured families "
             "(ESC followed by each of the 256 octet values, all 65536 octet pairs, constant fills of all 256 values, ramps from all 256 starts, class cycles of every length 0..1024); "
-            "E-STATE: from every reachable context (the whole RFC1055Context image as the library leaves it on a zeroed block, whatever members it has) every stream up to the bound is decoded to exhaustion. "
-            "non-trivial = payload non-empty / stream yields at least one delivery or -EILSEQ / stream owes at least one frame "
-            "behind the garbage / the injected fault fired",
+            "E-STATE: from every reachable context (the whole RFC1055Context image as the library leaves it on a zeroed block, whatever members it has) every stream up to the bound is decoded to exhaustion, "
+            "fault-free and with one driver failure (source -EAGAIN, source -EIO, sink -EIO) at every call position followed by continued use; the contexts left behind by failures are search nodes too; "
+            "every reachable context is also handed to rfc1055_encode for every payload <= 2 (complete encoding in the context's mode) and to rfc1055_context_init in both modes (history of initialisations: the result is a node that is owed what an initial context is owed). "
+            "non-trivial = payload non-empty / stream has a leading frame or an invalid escape (by the stream, not by the decoder's answer) / stream owes at least one frame "
+            "behind the garbage / the injected fault fired / the scripted sink gave at least one non-default answer. "
+            "Outcome classes are functions of the enumerated input and of the driver script only (never of the implementation's answers), so that a misbehaving "
+            "implementation ends in a VIOLATION and not in a vacuity failure",
     "assumptions": [
         "octet alphabet of the short families is one representative per SLIP class (41 stands for every ordinary octet); "
         "all 256 values are covered by the pair/fill/ramp families only",
-        "a delivery is a decode call returning 1 with the octets it emitted; the driver discards the sink after every return, as test/t-rfc1055.c does",
-        "drivers answer 1 octet per call or a negative code; 0-returns, -EINTR/-EAGAIN and partially accepting chunk sinks are not scripted (C17's subject)",
+        "a delivery is a decode call returning 1 with the octets it emitted; the driver discards the sink after every return, as test/t-rfc1055.c does - "
+        "except after a decode call that returned the -EAGAIN/-EINTR its source answered: that call is an interruption (the failing source call consumed nothing, the stream is the same octet string), "
+        "the caller keeps the sink and calls again, and the interrupted call is folded into its successor before the log is judged like a fault-free one "
+        "(clause C12/source-interruption-transparent; a decoder that asks the source again by itself instead of returning the code is accepted too)",
+        "after a hard source error (-EIO/-EPIPE) and after any sink error during decode the statement promises no more than behind a corrupted prefix: the code comes back unchanged, "
+        "and the resynchronisation sentences are applied to the delimiters / cut positions behind the point of failure only (the octet a failing sink refused may be lost)",
+        "source drivers answer 1 octet per call or a negative code. Zero-length returns are scripted only as a chunk sink's answer to a write of several octets "
+        "(the endpoint contract: 'will cause the system to retry'); what a 0 from a single-octet source_get_octet/sink_put_octet call means to rfc1055 is not decided by the statement "
+        "('error injection') and is left out; -EAGAIN/-EINTR from a sink during encode may be returned unchanged or retried (sink_put_chunk retries, sink_put_octet returns)",
+        "an interrupted or failed *encode* is not resumed (the statement does not say how); whenever encode reports success under a sink script, what reached the sink must be a complete encoding",
         "resynchronisation oracle: classic = frame behind any delimiter; start-of-frame = all non-empty frames of a well-formed run but the first non-empty one; "
         "empty deliveries never count against the decoder; delivery of empty frames is demanded only from the initial context",
         "'never emits more octets than it consumed' is judged cumulatively over the decode calls on one stream (a decoder may hold octets back across calls), not per call",
-        "RFC1055_WORST_CASE is not named by the statement: it is only required to be no smaller than the worst-case encoding length 2n+1 (2n+2) (a buffer dimensioned with a smaller value would overflow); a larger, conservative value is accepted",
+        "RFC1055_WORST_CASE is not named by the statement: it is only required to be no smaller than the worst-case encoding length 2n+1 (2n+2) (a buffer or quota dimensioned with a smaller value would overflow), "
+        "for every length whose bound is representable in size_t, given as size_t/uint64_t (a 32-bit argument type wraps by the language's own rules and is not used beyond 2^16); a larger, conservative value is accepted",
+        "a context that started initial and decoded nothing but complete well-formed frames up to the end of its source (the -ENODATA that ends every decode loop) holds no part of a frame: "
+        "E-STATE treats it as initial for the next source (frames arriving through consecutive sources, e.g. one source per received block); after any other history only the resynchronisation sentences are demanded",
+        "rfc1055_context_init is applied to arbitrary memory (block filled with a5, or a used context); the static initialisers are used as initialisers of an object",
         "the decoder context is opaque apart from `flags` and `state` being readable: E-STATE nodes are whole context images produced by the library itself, 'initial' means octet-identical to what rfc1055_context_init produces",
     ],
     "harnesses": [
         {
             "name": "c12_slip", "src": "harness/c12_slip.c", "shape": "espace", "lib": _LIB,
-            "min_outcomes": 16,
+            "min_outcomes": 30,
             "require_outcomes": {"any": [
-                "rt-empty", "rt-plain", "rt-escaped", "rt-worst-case", "pair", "pair-with-empty", "worst-case-macro",
-                "raw-frames", "raw-eilseq", "escape-rejected", "escape-accepted", "raw-eilseq-and-frames", "raw-no-frame",
-                "resync-after-eilseq", "resync-after-eilseq-first-lost", "resync-silent", "resync-nothing-owed",
+                "rt-empty", "rt-plain", "rt-escaped", "rt-worst-case", "pair", "pair-with-empty", "pair-context-reused",
+                "worst-case-macro", "worst-case-macro-wide", "worst-case-macro-beyond-32-bit",
+                "raw-frames", "raw-eilseq", "escape-invalid", "escape-valid", "raw-eilseq-and-frames", "raw-no-frame",
+                "resync-after-invalid-escape", "resync-garbage-with-delimiter", "resync-garbage-without-delimiter",
+                "resync-no-garbage", "resync-nothing-owed",
                 "encode-sink-error", "encode-source-error", "decode-sink-error", "decode-source-error",
+                "encode-sink-interrupted", "encode-source-interrupted", "decode-sink-interrupted",
+                "interrupt-at-frame-boundary", "interrupt-inside-frame", "interrupt-inside-escape",
+                "interrupt-unframed", "interrupt-at-end-of-stream", "interrupt-twice",
+                "encode-sink-short-write", "encode-sink-zero-write", "encode-sink-interrupt",
+                "encode-sink-hard-error", "encode-sink-two-deviations", "encode-sink-fifo-blocks",
                 "full-alphabet-pair", "fill-worst-case", "ramp", "cycle"]},
         },
         {
             "name": "c12_slip_ctx", "src": "harness/c12_slip.c", "shape": "estate", "lib": _LIB,
             "cflags": ["-DC12_ESTATE"], "shards": 1, "min_outcomes": 4,
-            "require_outcomes": {"any": ["to-normal", "to-normal-via-eilseq", "to-search-for-end",
-                                         "to-search-for-start", "to-search-for-start-delivering"]},
+            "require_outcomes": {"any": ["initial-context", "initial-context-source-interrupted",
+                                         "initial-context-source-error", "initial-context-sink-error"]},
         },
     ],
 }
